@@ -24,7 +24,16 @@ def run_property(prop, repo_root='/repo', tier='quick', overlay=None, quiet=Fals
     repo = Repo(repo_root, overlay=overlay)
     ctx = Ctx(prop, repo, tier=tier, quiet=quiet)
     mod = importlib.import_module('.rules.' + prop.lower(), __package__)
-    mod.run(ctx)
+    try:
+        mod.run(ctx)
+    except AnalysisError as e:
+        # A violation already established by a completed rule stands; the part of the analysis that could not be
+        # completed is reported with it. Without such a violation the run is inconclusive (exit 2).
+        from .report import load_known
+        known = {(k['property'], k['rule'], k['key']) for k in load_known().get('known', [])}
+        if not [f for f in ctx.findings if f.ident() not in known]:
+            raise
+        ctx.info("analysis incomplete after the violation(s) reported: %s" % e)
     code, evidence = finish(ctx, t0, seed=seed, write=write)
     return code, ctx, evidence
 
